@@ -9,6 +9,9 @@ environ['wsgi.input'] was replaced by the buffered copy holding the same bytes; 
 <= Content-Length - bytes already delivered (the stream is never asked beyond Content-Length).
 Second layer: the same through Ombott.__call__ with a handler returning request.body.read().
 """
+import io
+import itertools
+
 from vf import core, sut, wsgi
 from vf.env import EnvExplorer, ChoiceStream, Horizon, body_kind
 
@@ -86,6 +89,15 @@ def configs(tier, seed):
     out.append(('bytesio', 0, 0, False, None))
     # one environment fault per execution: a read that fails once (at every read position), a spool file that cannot be created
     out.append(('faults', 0, 0, False, None))
+    # request sequences through one application (handlers that return, close or scribble on their body object)
+    # two requests with bodies on two threads of one application: every schedule with <= 1 (thorough: 2 for the first pair) preemptions
+    for pi in range(len(THREAD_BODIES)):
+        for Mt in (4, 64):
+            for start in (0, 1):
+                out.append(('threads', pi, Mt, start, 2 if (tier == 'thorough' and pi == 0 and Mt == 4) else 1))
+    for first in range(len(SEQ_KINDS)):
+        out.append(('appseq', first, 4, False, None))
+        out.append(('appseq', first, 64, False, None))
     # seed extension: one extra (n, M) family, explored just as exhaustively
     extra_n = 9 + seed % 3 if tier == 'quick' else 15 + seed % 2
     out.append(('comp', extra_n, 2 + seed % 5, True, None))
@@ -109,7 +121,7 @@ def bounds(tier, seed):
             'content_length': 'absent, 0..n+2', 'multipart_family_answer_menu': 'reads that could be answered in more than 8 ways are answered with all/1/2/all-1 bytes', 'unmerged_bound': 2}
 
 
-FLOORS = {'bytesio_cases': 500, 'multipart_ctype': 4, 'short_read_execs': 50, 'kind_file': 5, 'kind_memory': 5, 'cl_below': 5, 'cl_equal': 5, 'cl_above': 5,
+FLOORS = {'schedules': 1000, 'app_sequences': 1000, 'bytesio_cases': 500, 'multipart_ctype': 4, 'short_read_execs': 50, 'kind_file': 5, 'kind_memory': 5, 'cl_below': 5, 'cl_equal': 5, 'cl_above': 5,
           'wsgi_execs': 20}
 
 
@@ -414,10 +426,127 @@ def work_faults(res, om):
     core.untrack()
 
 
+# ---- request sequences through one application: what a handler does with ITS body object is its own business -----------------
+
+SEQ_BODIES = [(0, 0), (0, None), (3, 3), (5, 2), (6, 6)]          # (bytes on the wire, Content-Length)
+SEQ_STYLES = ['read', 'ret', 'with', 'append']
+SEQ_KINDS = [(b, st) for b in range(len(SEQ_BODIES)) for st in SEQ_STYLES]
+
+
+def seq_app(om, M):
+    app = om.Ombott({'max_memfile_size': M})
+
+    def read():
+        return app.request.body.read()
+
+    def ret():
+        return app.request.body                  # a file-like answer: the server closes it when it is done
+
+    def with_():
+        with app.request.body as f:              # a tidy handler closes what it opened
+            return f.read()
+
+    def append():
+        b = app.request.body
+        data = b.read()
+        b.write(b'-audit')                       # (its own buffered copy: scribbling on it is nobody else's business)
+        return data
+    for st, h in zip(SEQ_STYLES, (read, ret, with_, append)):
+        app.route('/' + st, 'POST', h)
+    return app
+
+
+def seq_problem(om, M, seq):
+    """serve the sequence on a freshly imported framework -> None | (index, text)"""
+    app = seq_app(om, M)
+    for i, k in enumerate(seq):
+        b, st = SEQ_KINDS[k]
+        n, CL = SEQ_BODIES[b]
+        data = data_of(n)
+        c = wsgi.call(app, wsgi.environ('POST', '/' + st, input=io.BytesIO(data), clen=CL))
+        exp = expected(data, CL)
+        if c.escaped is not None or c.code != 200 or c.body != exp:
+            return i, (f'request #{i + 1} ({n} bytes on the wire, Content-Length {CL}, handler style {st!r}) is answered {c.status} {c.body[:40]!r} '
+                       f'{"escaped " + repr(c.escaped) if c.escaped is not None else ""}; its body is {exp!r}')
+    return None
+
+
+def work_appseq(res, M, first):
+    c = res['counters']
+    for seq in itertools.product([first], range(len(SEQ_KINDS)), range(len(SEQ_KINDS))):
+        om = sut.load(fresh=True)
+        res['states'] += 1
+        res['transitions'] += 3
+        res['execs'] += 3
+        c['app_sequences'] += 1
+        res['nontrivial'] += 1
+        pr = seq_problem(om, M, seq)
+        res['outcomes'].add('request sequence ' + ('ok' if pr is None else 'DIFF'))
+        if pr is not None:
+            core.add_violation(res, {'kind': 'appseq', 'M': M, 'seq': list(seq), 'choices': []},
+                               f'one application (max_memfile_size={M}) serves {[(SEQ_BODIES[SEQ_KINDS[k][0]], SEQ_KINDS[k][1]) for k in seq]} one after the other: {pr[1]}',
+                               sig='appseq')
+    sut.load(fresh=True)
+    core.add_sample(res, {'kind': 'appseq', 'bodies (bytes, Content-Length)': [list(map(str, b)) for b in SEQ_BODIES], 'handler_styles': SEQ_STYLES, 'length': 3, 'M': M})
+
+
+# ---- two requests with bodies on two threads of one application (E-SCHED) ------------------------------------------------------
+
+HERE = __import__('os').path.abspath(__file__)
+THREAD_BODIES = [(b'AAAAAAAAAA', b'bbbbbbbbbb'), (b'AAAAAAAAAA', b'bbb'), (b'0123456789', b'')]
+
+
+def run_threads(om, M, pair, prefix):
+    from vf.sched import Scheduler
+    app = seq_app(om, M)
+    progs = [(lambda d=d: wsgi.call(app, wsgi.environ('POST', '/read', input=io.BytesIO(d + b'NEXT'), clen=len(d)))) for d in pair]
+    sp = _src_prefix()
+    return Scheduler(progs, prefix, lambda fn: fn.startswith(sp) or fn == HERE).run()
+
+
+def judge_threads(pair, x):
+    if x.hung:
+        return 'threads:hang', 'a thread did not finish'
+    for t, e in x.errors.items():
+        return 'threads:error', f'thread {t} raised {type(e).__name__}: {e}'
+    for t in (0, 1):
+        r = x.results[t]
+        if r.code != 200 or r.body != pair[t]:
+            return 'threads:body', f'the request that sent {pair[t]!r} was presented {r.body!r} (status {r.status})'
+    return None
+
+
+def work_threads(res, pi, M, start, bound):
+    from vf.sched import explore
+    c = res['counters']
+    pair = THREAD_BODIES[pi]
+    for prefix, x in explore(lambda p: run_threads(sut.load(fresh=True), M, pair, p), bound, base=(start,)):
+        res['states'] += 1
+        res['transitions'] += len(x.points)
+        res['execs'] += 1
+        c['schedules'] += 1
+        if x.switches:
+            res['nontrivial'] += 1
+        v = judge_threads(pair, x)
+        res['outcomes'].add('threads ' + ('ok' if v is None else v[0]))
+        if v is not None:
+            core.add_violation(res, {'kind': 'threads', 'pair': pi, 'M': M, 'choices': list(x.choices)},
+                               f'requests with the bodies {pair[0]!r} and {pair[1]!r} on two threads of one application (max_memfile_size={M}), {x.switches} switches: {v[1]}',
+                               sig=v[0])
+    sut.load(fresh=True)
+    core.add_sample(res, {'kind': 'threads', 'bodies': [repr(b) for b in pair], 'M': M, 'first_thread': start, 'preemption_bound': bound, 'schedules': c['schedules']})
+
+
 def work(spec):
     kind, n, M, merge, bound, cls = spec
     res = core.new_result()
     om = sut.load()
+    if kind == 'threads':
+        work_threads(res, n, M, merge, bound)
+        return res
+    if kind == 'appseq':
+        work_appseq(res, M, n)
+        return res
     if kind == 'bytesio':
         work_bytesio(res, om)
         return res
@@ -462,6 +591,20 @@ def work(spec):
 
 def replay(case):
     om = sut.load()
+    if case['kind'] == 'threads':
+        pair = THREAD_BODIES[case['pair']]
+        x = run_threads(sut.load(fresh=True), case['M'], pair, case['choices'])
+        v = judge_threads(pair, x)
+        sut.load(fresh=True)
+        return None if v is None else (f'requests with the bodies {pair[0]!r} and {pair[1]!r} on two threads of one application (max_memfile_size={case["M"]}) under the '
+                                       f'schedule with {x.switches} switches: {v[1]}')
+    if case['kind'] == 'appseq':
+        pr = seq_problem(sut.load(fresh=True), case['M'], case['seq'])
+        sut.load(fresh=True)
+        if pr is None:
+            return None
+        return (f'one application (max_memfile_size={case["M"]}) serves the requests (bytes on the wire, Content-Length, handler style) '
+                f'{[(SEQ_BODIES[SEQ_KINDS[k][0]], SEQ_KINDS[k][1]) for k in case["seq"]]} one after the other: {pr[1]}')
     if case['kind'] == 'faults':
         bad, label = fault_case(om, case['n'], case['CL'], case['M'], case['piece'], case['fail_at'], case['no_spool'])
         if bad is None:
